@@ -6,6 +6,7 @@ import Driver.ValueFam
 import Driver.StoreFam
 import Driver.ConfigFam
 import Driver.WaitFam
+import Driver.PanicFam
 /-!
 # `flytdriver`: one JSON line in (`{"fam":…,"sc":…,"obs":…}`), one JSON verdict line out.
 The scenario is run through the Lean model; the property predicates (`Spec.*`) are evaluated on
@@ -29,6 +30,7 @@ def handleLine (line : String) : Json :=
       | "storehist" => Driver.StoreFam.handleHist sc obs
       | "config" => Driver.ConfigFam.handle sc obs
       | "wait" => Driver.WaitFam.handle sc obs
+      | "panic" => Driver.PanicFam.handle sc obs
       | f => Json.mkObj [("badop", Json.str s!"unknown family {f}")]
     | _, _, _ => Json.mkObj [("badop", Json.str "missing fam/sc/obs")]
 
